@@ -180,13 +180,13 @@ func (f *Replace) checkStartEnd(s *slip.Scope, start, end, size, depth int) int 
 	if size == 0 && start == 0 && end == -1 {
 		return 0
 	}
-	if size <= start {
+	if size < start {
 		slip.ErrorPanic(s, depth, "Start of %d is out of bounds for sequence-1 with length %d.", start, size)
 	}
 	if end == -1 {
 		end = size
 	} else {
-		if size <= end {
+		if size < end {
 			slip.ErrorPanic(s, depth, "End of %d is out of bounds for sequence-1 with length %d.", end, size)
 		}
 		if end < start {
